@@ -92,13 +92,14 @@ PROPS = {
         "rule": "every strict prefix (all cut points up to 96 bytes, sampled beyond) of every encoding generated by ty/decl, and of every "
                 "cross-version encoding of hist with stored version >= 1, must be Err on the implementation",
         "trusted": MODEL_TRUST,
-        "partial": "cross-version reads (a prefix of data written by another version): correspondence only",
+        "partial": "cross-version reads on pairs outside pairAlignedB or of version-0 data: correspondence only",
         "level_text": "Proof: for every decoder program a successful run is unchanged by appending data (run_extends, induction on the "
                       "operation tree) and cursors stay in their windows (run_AllWF); with consumption this gives: no strict prefix of an "
                       "encoding decodes to a value (prefix_rejected); more fuel never changes a successful decoding (dec_fuel_mono) and "
                       "the decoder never panics (C05), so with the driver's own budget every strict prefix is exactly an error — "
                       "not a value, not a panic — through the reference decoder and through the faithful context (prefix_is_error, "
-                      "prefix_is_error_faithful).",
+                      "prefix_is_error_faithful); the same for a prefix of what another (aligned) version of the definition wrote, "
+                      "whenever the data carries a header (cross_prefix_rejected, cross_prefix_is_error).",
         "level_note": V0_NOTE,
     },
 
